@@ -239,7 +239,7 @@ impl<A: Float> AffFuncG<A> {
     pub fn subtraction(dim: usize, left: usize, right: usize) -> AffFuncG<A> {
         let mut matrix = Array2::zeros((1, dim));
         matrix[[0, left]] = A::one();
-        matrix[[0, right]] = -A::one();
+        matrix[[0, right]] = matrix[[0, right]] - A::one();
         let bias = Array1::zeros(1);
 
         AffFuncG::<A>::from_mats(
